@@ -66,3 +66,62 @@ func VerifCompose(data []byte, peerChunkSize uint32, reuseBuffer bool) (msgs []V
 	sort.Slice(streams, func(i, j int) bool { return streams[i].Csid < streams[j].Csid })
 	return
 }
+
+// VerifPacker drives one MessagePacker (unexported writers) for the harness:
+// every call returns exactly the bytes that writer handed to the connection.
+type VerifPacker struct {
+	p *MessagePacker
+}
+
+func NewVerifPacker() *VerifPacker {
+	return &VerifPacker{p: NewMessagePacker()}
+}
+
+// Do runs one writer. name selects it; s1/s2 are its string arguments, n1..n3
+// its integer arguments (see the switch). "raw" is ChunkAndWrite itself on an
+// arbitrary body: ModWritePos(12); Write(body); ChunkAndWrite(csid, typeid, msid).
+func (v *VerifPacker) Do(name string, s1, s2 string, n1, n2, n3 int, flag bool) []byte {
+	var out bytes.Buffer
+	p := v.p
+	switch name {
+	case "cs":
+		_ = p.writeChunkSize(&out, n1)
+	case "was":
+		_ = p.writeWinAckSize(&out, n1)
+	case "pbw":
+		_ = p.writePeerBandwidth(&out, n1, uint8(n2))
+	case "connect":
+		_ = p.writeConnect(&out, s1, s2, flag)
+	case "cres":
+		_ = p.writeConnectResult(&out, n1, n2)
+	case "cstream":
+		_ = p.writeCreateStream(&out)
+	case "csres":
+		_ = p.writeCreateStreamResult(&out, n1)
+	case "play":
+		_ = p.writePlay(&out, s1, n1)
+	case "publish":
+		_ = p.writePublish(&out, s2, s1, n1)
+	case "ospub":
+		_ = p.writeOnStatusPublish(&out, n1)
+	case "osplay":
+		_ = p.writeOnStatusPlay(&out, n1)
+	case "rec":
+		_ = p.writeStreamIsRecorded(&out, uint32(n1))
+	case "begin":
+		_ = p.writeStreamBegin(&out, uint32(n1))
+	case "pingreq":
+		_ = p.writePingRequest(&out, uint32(n1))
+	case "ack":
+		_ = p.writeAcknowledgement(&out, uint32(n1))
+	case "pingresp":
+		_ = p.writePingResponse(&out, uint32(n1))
+	case "raw":
+		p.b.ModWritePos(12)
+		_, _ = p.b.Write([]byte(s1))
+		_ = p.ChunkAndWrite(&out, n1, uint8(n2), n3)
+	default:
+		panic("VerifPacker.Do: unknown writer " + name)
+	}
+	return out.Bytes()
+}
